@@ -123,15 +123,19 @@ fn check_cli(list: &[String]) -> Verdict {
 }
 
 fn all_tokens(max_syms: u32) -> Vec<String> {
-    let syms = ["-", "a", "é", "₿", "𝄞", " "];
+    all_tokens_over(&["-", "a", "é", "₿", "𝄞", " "], max_syms)
+}
+
+fn all_tokens_over(syms: &[&str], max_syms: u32) -> Vec<String> {
+    let k = syms.len() as u64;
     let mut out = vec![String::new()];
     for len in 1..=max_syms {
-        for code in 0..6u64.pow(len) {
+        for code in 0..k.pow(len) {
             let mut t = String::new();
             let mut c = code;
             for _ in 0..len {
-                t.push_str(syms[(c % 6) as usize]);
-                c /= 6;
+                t.push_str(syms[(c % k) as usize]);
+                c /= k;
             }
             out.push(t);
         }
@@ -170,7 +174,7 @@ fn enumerate(ctx: &ShardCtx, toks: &[String], max_len: u32, idx: &mut u64) {
 }
 
 fn token_strategy(typeable: bool) -> impl Strategy<Value = String> {
-    let table: Vec<char> = vec!['-', '-', '-', 'a', 'b', 'h', 'é', '₿', '𝄞', ' ', 'v'];
+    let table: Vec<char> = vec!['-', '-', '-', '-', 'a', 'b', 'h', 'é', '₿', '𝄞', ' ', 'v', '\u{7ff}', '\u{800}', '\u{10fffd}'];
     let ch = prop_oneof![
         10 => any::<u16>().prop_map(move |s| pick(&table, s)),
         1 => any::<char>().prop_map(move |c| if c == '\0' || (typeable && (c < ' ' || c == '\x7f')) { 'Ω' } else { c }),
@@ -193,8 +197,12 @@ fn run_shard(ctx: &ShardCtx) {
     if !ctx.failed() {
         enumerate(ctx, &all_tokens(2), 4, &mut idx);
     }
+    if !ctx.failed() {
+        // characters on the boundaries of each encoded length (last 2-byte, first 3-byte, last 3-byte, first and last 4-byte lead)
+        enumerate(ctx, &all_tokens_over(&["-", "a", "\u{7ff}", "\u{800}", "\u{ffff}", "\u{10000}", "\u{10fffd}"], 3), 2, &mut idx);
+    }
     ctx.exhaustive(
-        &format!("lists of <= 3 tokens of <= 3 symbols, lists of <= 2 tokens of <= {} symbols, lists of <= 4 tokens of <= 2 symbols", b),
+        &format!("lists of <= 3 tokens of <= 3 symbols, lists of <= 2 tokens of <= {} symbols, lists of <= 4 tokens of <= 2 symbols; lists of <= 2 tokens of <= 3 symbols over length-boundary characters", b),
         !ctx.failed(),
     );
     let enumerated = ctx.res.borrow().evaluations;
